@@ -54,7 +54,7 @@ def reset():
     except Exception:
         pass
     for d in (Function.unique_task2name, Function.unique_name2task, Function.task2context, Function.task2cb,
-              Function.service_cnt, Function.service2global_ctx):
+              Function.service_cnt, Function.service2global_ctx, getattr(Function, "service_handlers", {})):
         d.clear()
     Function.our_tasks.clear()
     Function.task_reaper = None
